@@ -154,19 +154,22 @@ def rigid_clause(T, d, sigbase, who):
     return R, T[:d, d]
 
 
-def open_hull_suffix(ps):
-    """Signature suffix for containment failures of volumes that trimesh derives from `convex.convex_hull`
-    (oriented_bounds; hull_points(obj) for PointCloud / Trimesh, hence bounding_sphere / bounding_cylinder): when that
-    hull itself is open (C16.hull|watertight|...), vertices referenced only by the dropped faces vanish and the
-    volume misses them. Computed only after a clause has already failed."""
+def contain_sig(sigbase, who, clause, ps):
+    """Signature of a failed containment clause. Volumes that trimesh derives from `convex.convex_hull`
+    (oriented_bounds; hull_points(obj) for PointCloud / Trimesh, hence bounding_sphere / bounding_cylinder) inherit
+    its defect: when that hull is open (C16.hull|watertight|...), vertices referenced only by the dropped faces vanish
+    and the volume misses them. That consequence gets the root cause up front ('C16.<kind>|open_hull|<why>|...'), every
+    other failure keeps '<sigbase>|<who>|<clause>'. Evaluated only after a clause has already failed."""
+    plain = f"{sigbase}|{who}|{clause}"
     if ps.d != 3:
-        return ""
+        return plain
     try:
         if tc.convex_hull(ps.P.copy()).is_watertight:
-            return ""
+            return plain
     except Exception:  # noqa
-        return ""
-    return "|open_hull|" + classify_open_hull(ps)[0]
+        return plain
+    kind, _, rest = sigbase.partition("|")
+    return f"{kind}|open_hull|{classify_open_hull(ps)[0]}|{clause}|{rest}|{who}"
 
 
 def shortcut_allowance(R, ps):
@@ -191,7 +194,7 @@ def box_clauses(ps, T, ext, sigbase, who, pts=None, extra_tol=0.0):
     Q = P @ R.T + t
     tol = ps.tol + extra_tol + (shortcut_allowance(R, ps) if d == 3 else 0.0)
     over = float((np.abs(Q) - ext / 2.0).max())
-    chk(over <= tol, lambda: f"{sigbase}|{who}|contains" + open_hull_suffix(ps), lambda: f"point sticks out of the box by {over:.3e} (tol {tol:.3e}, diam {ps.diam:.3e}, extents {ext.tolist()})")
+    chk(over <= tol, lambda: contain_sig(sigbase, who, "contains", ps), lambda: f"point sticks out of the box by {over:.3e} (tol {tol:.3e}, diam {ps.diam:.3e}, extents {ext.tolist()})")
     span = Q.max(axis=0) - Q.min(axis=0)
     slack = float(np.abs(span - ext).max())
     chk(slack <= 2 * tol, f"{sigbase}|{who}|tight", lambda: f"extents {ext.tolist()} vs span of transformed points {span.tolist()} (diff {slack:.3e}, tol {2*tol:.3e})")
@@ -450,7 +453,7 @@ def obb_guarded(fn, ps, who):
         if not open_hull:
             raise
         why, txt = classify_open_hull(ps)
-        out(f"C16.box|raises_ValueError|open_hull|{why}|{who}", f"ValueError: {e}; convex_hull of the same points is not watertight: {txt}")
+        out(f"C16.box|open_hull|{why}|raises_ValueError|{who}", f"ValueError: {e}; convex_hull of the same points is not watertight: {txt}")
 
 
 @body("C16.box")
@@ -541,7 +544,7 @@ def sphere_clauses(ps, center, radius, sigbase, who, general_ok, ctx=None):
     over = float(dist.max() - r)
     # the radius is the largest distance from the chosen centre, computed in coordinates normalised by the
     # smallest extent and mapped back: round-off only
-    chk(over <= ps.tol + 1e-12 * r, lambda: f"{sigbase}|{who}|contains" + open_hull_suffix(ps), lambda: f"farthest point {over:.3e} outside radius {r:.6e} (tol {ps.tol:.3e})")
+    chk(over <= ps.tol + 1e-12 * r, lambda: contain_sig(sigbase, who, "contains", ps), lambda: f"farthest point {over:.3e} outside radius {r:.6e} (tol {ps.tol:.3e})")
     mb = miniball(ps.P, seed=len(ps.P))
     k = mb["nsupport"]
     general = bool(general_ok and mb["certified"] and mb["n_on_boundary"] == k and mb["min_lambda"] >= 1e-3)
@@ -603,8 +606,8 @@ def cylinder_clauses(ps, T, radius, height, sigbase, who):
     # shortcut (matrix within 1e-8 of I is not applied) is reachable when the optimiser ends within 1e-8 rad of the
     # z axis: same narrow allowance as for the boxes
     sa = shortcut_allowance(R, ps)
-    chk(over_r <= ps.tol + sa + 1e-12 * r, lambda: f"{sigbase}|{who}|radial" + open_hull_suffix(ps), lambda: f"point {over_r:.3e} outside radius {r:.6e} (tol {ps.tol + sa:.3e})")
-    chk(over_z <= ps.tol + sa, lambda: f"{sigbase}|{who}|axial" + open_hull_suffix(ps), lambda: f"point {over_z:.3e} beyond half height {hgt/2:.6e} (tol {ps.tol + sa:.3e})")
+    chk(over_r <= ps.tol + sa + 1e-12 * r, lambda: contain_sig(sigbase, who, "radial", ps), lambda: f"point {over_r:.3e} outside radius {r:.6e} (tol {ps.tol + sa:.3e})")
+    chk(over_z <= ps.tol + sa, lambda: contain_sig(sigbase, who, "axial", ps), lambda: f"point {over_z:.3e} beyond half height {hgt/2:.6e} (tol {ps.tol + sa:.3e})")
     return int((rad < r * (1 - 1e-6)).sum())
 
 
@@ -705,27 +708,27 @@ def box_case(draw):
 
 @subcheck("C16", "hull", shards={"quick": 4, "thorough": 16})
 def s_hull(ctx):
-    ctx.given("C16.hull", any3(), n={"quick": 2400, "thorough": 120000})
+    ctx.given("C16.hull", any3(), n={"quick": 2400, "thorough": 60000})
 
 
 @subcheck("C16", "is_convex", shards={"quick": 1, "thorough": 4})
 def s_is_convex(ctx):
-    ctx.given("C16.is_convex", mesh_case(max_parts=2, flat=False), n={"quick": 500, "thorough": 20000})
+    ctx.given("C16.is_convex", mesh_case(max_parts=2, flat=False), n={"quick": 500, "thorough": 10000})
 
 
 @subcheck("C16", "box", shards={"quick": 4, "thorough": 16})
 def s_box(ctx):
-    ctx.given("C16.box", box_case(), n={"quick": 2400, "thorough": 120000})
+    ctx.given("C16.box", box_case(), n={"quick": 2400, "thorough": 60000})
 
 
 @subcheck("C16", "sphere", shards={"quick": 3, "thorough": 16})
 def s_sphere(ctx):
-    ctx.given("C16.sphere", st.one_of(any3(), pts_case(2)), n={"quick": 1800, "thorough": 90000})
+    ctx.given("C16.sphere", st.one_of(any3(), pts_case(2)), n={"quick": 1800, "thorough": 50000})
 
 
 @subcheck("C16", "cylinder", shards={"quick": 4, "thorough": 16})
 def s_cylinder(ctx):
-    ctx.given("C16.cylinder", any3(mesh_weight=2), n={"quick": 700, "thorough": 30000})
+    ctx.given("C16.cylinder", any3(mesh_weight=2), n={"quick": 700, "thorough": 16000})
 
 
 def _cube_subsets():
